@@ -6,9 +6,9 @@ ALL_REGIONS = ['FE', 'MK', 'ST', 'IH', 'CT', 'SIG', 'AB', 'GC', 'BC', 'CN', 'AC'
 PROPS = {
     'C18': {
         'title': 'Behaviour does not depend on the identifiers chosen',
-        'level_text': "PARTIAL. Proof (C18.parseStates_rename, graph_rename, delta_rename; Lemmas/Rename.parse_ren): an injective renaming of state and superstate names commutes with parsing the states section (all nesting depths), with building the transition graph and with delta_M, so the declared relation of the renamed definition is the renamed relation; with C01-C16 (which hold for every validated machine whatever its names, under the no-collision side conditions N1/N2) the renamed machine behaves as the renamed specification. Clashes with identifiers used inside the generated code are rustc's name resolution, not a Lean statement: they are probed by T4 rename (adversarial identifier pool x context mode x dynamic, each against its neutral twin over the whole probe matrix) and by T2 on a corpus drawing names from that pool. C18Twin.twin_behaves_alike transports the refinement theorem along the renaming: dispatched the same events under hooks answering alike, the renamed twin accepts exactly the same events and ends in the renamed state, for every history. A T1/T2 mismatch that disappears on the neutrally renamed twin of the definition is name-dependent and is consumed by this check whatever its region; the `collide` stream draws pairs of state names with the same snake_case form.",
+        'level_text': "PARTIAL. Proof (C18.parseStates_rename, graph_rename, delta_rename; Lemmas/Rename.parse_ren): an injective renaming of state and superstate names commutes with parsing the states section (all nesting depths), with building the transition graph and with delta_M, so the declared relation of the renamed definition is the renamed relation; with C01-C16 (which hold for every validated machine whatever its names, under the no-collision side conditions N1/N2) the renamed machine behaves as the renamed specification. Clashes with identifiers used inside the generated code are rustc's name resolution, not a Lean statement: they are probed by T4 rename (adversarial identifier pool x context mode x dynamic, each against its neutral twin over the whole probe matrix) and by T2 on a corpus drawing names from that pool. C18Twin.twin_behaves_alike transports the refinement theorem along the renaming: dispatched the same events under hooks answering alike, the renamed twin accepts exactly the same events and ends in the renamed state, for every history; C18TwinReply.twin_replies_alike adds vetoes and the error values: the twin's replies are the original's with the state named by an InvalidTransition error renamed. A T1/T2 mismatch that disappears on the neutrally renamed twin of the definition is name-dependent and is consumed by this check whatever its region; the `collide` stream draws pairs of state names with the same snake_case form.",
         'level_note': 'Known finding F6 (state named C with generic context) is listed in known_findings.json and re-observed on every run. Ties: T2 all regions, T4 rename.',
-        'modules': ['SMV.Props.C18', 'SMV.Props.C18Twin'],
+        'modules': ['SMV.Props.C18', 'SMV.Props.C18Twin', 'SMV.Props.C18TwinReply'],
         'regions': ['FE', 'MK', 'ST', 'IH', 'CT', 'SIG', 'SUB', 'EV', 'AS', 'DN', 'ID', 'EX'],
         't3': ['walk', 'assign'],
         't4': ['rename'],
